@@ -195,9 +195,10 @@ func nilProp(c *Ctx, fi *core.FuncInfo) string {
 // implies nonnil(P) when true.
 func (e *nilEngine) computeFlagImpl() {
 	type asg struct {
-		recv string
-		rhs  ast.Expr
-		fi   *core.FuncInfo
+		recv    string
+		recvObj types.Object
+		rhs     ast.Expr
+		fi      *core.FuncInfo
 	}
 	byField := map[*types.Var][]asg{}
 	for _, fi := range e.c.P.SortedFuncs() {
@@ -216,7 +217,7 @@ func (e *nilEngine) computeFlagImpl() {
 				if fv == nil || !core.IsBool(fv.Type()) || fv.Pkg() == nil || !strings.HasPrefix(fv.Pkg().Path(), core.ModPath) {
 					continue
 				}
-				byField[fv] = append(byField[fv], asg{recv: exprStr(sel.X), rhs: as.Rhs[i], fi: fi})
+				byField[fv] = append(byField[fv], asg{recv: exprStr(sel.X), recvObj: core.ObjOf(info, sel.X), rhs: as.Rhs[i], fi: fi})
 			}
 			return true
 		})
@@ -234,9 +235,9 @@ func (e *nilEngine) computeFlagImpl() {
 				got := map[string]bool{}
 				for _, cnd := range core.SplitCond(a.rhs, false) {
 					if x, nonNil, ok := core.NilTest(info, cnd); ok && nonNil {
-						xs := exprStr(x)
-						if strings.HasPrefix(xs, a.recv+".") {
-							got[xs[len(a.recv):]] = true
+						// resolve local aliases: items := a.schema.Items; items != nil
+						if p := e.c.P.PathOf(a.fi, x, true); p != nil && p.Root != nil && p.Root == a.recvObj && len(p.Steps) > 0 {
+							got[p.StepsString()] = true
 						}
 						continue
 					}
